@@ -33,15 +33,16 @@ type vfDialog struct {
 }
 
 type vfSticky struct {
-	t      *testing.T
-	tr     *vfTrace
-	g      *vfGamma
-	b      *vfBench
-	id     string
-	start  time.Time
-	backs  []string
-	pooled bool
-	nbr    int
+	t       *testing.T
+	tr      *vfTrace
+	g       *vfGamma
+	b       *vfBench
+	id      string
+	start   time.Time
+	backs   []string
+	pooled  bool
+	nbr     int
+	timeout time.Duration
 }
 
 func (s *vfSticky) hook(ev string, kv ...interface{}) {
@@ -254,6 +255,11 @@ func (s *vfSticky) event(op vfStickyOp, d *vfDialog, rnd *rand.Rand, expires int
 		// table's purge clock is in when the last purge was armed before the live pins were stored (written between two
 		// loop iterations, behind the barrier).  No pin is touched.
 		s.b.proxies[0].dialogBasedBackends.nextCleanTime = time.Now().Add(-time.Second)
+	case "timeout":
+		// one dialog timeout goes by in real time (the bench of such a history has a short one); dialogs established with a
+		// larger Expires are still within their lifetime - every step is bracketed by clock readings, the trace spec claims
+		// stickiness only where the lifetime has surely not elapsed
+		time.Sleep(s.timeout + 25*time.Millisecond)
 	case "unrelated":
 		u := s.newDialog(rnd, 900000+s.nbr)
 		s.step("unrelated", ua, 40000, s.request(u, []string{"OPTIONS", "MESSAGE", "REGISTER"}[rnd.Intn(3)], false, false))
@@ -274,6 +280,10 @@ func (s *vfSticky) open(id string, nback int, timeoutMs int) {
 	s.b = vfGetBench(s.t, cfg)
 	vfSetHook(s.hook)
 	s.start = time.Now()
+	s.timeout = 1200 * time.Second
+	if timeoutMs > 0 {
+		s.timeout = time.Duration(timeoutMs) * time.Millisecond
+	}
 	T := 1200 * 1000000
 	if timeoutMs > 0 {
 		T = timeoutMs * 1000
@@ -309,7 +319,13 @@ func TestVfSticky(t *testing.T) {
 				if err := json.Unmarshal(raw, &ops); err != nil {
 					t.Fatalf("bad behaviour: %v", err)
 				}
-				s.open(fmt.Sprintf("tlc%d", k), 3, 0)
+				tmo := 0
+				for _, op := range ops {
+					if op.Op == "timeout" {
+						tmo = 90 // a history in which a dialog timeout passes runs on a bench with a short one
+					}
+				}
+				s.open(fmt.Sprintf("tlc%d", k), 3, tmo)
 				ds := map[string]*vfDialog{}
 				for _, op := range ops {
 					d := ds[op.D]
@@ -317,7 +333,11 @@ func TestVfSticky(t *testing.T) {
 						d = s.newDialog(rnd, k*10+len(ds))
 						ds[op.D] = d
 					}
-					s.event(op, d, rnd, 0)
+					exp := 0
+					if (op.Op == "answer" || op.Op == "bsub") && op.M == "long" {
+						exp = []int{3600, 7200, 86400}[rnd.Intn(3)]
+					}
+					s.event(op, d, rnd, exp)
 				}
 				ncase++
 			})
@@ -327,7 +347,17 @@ func TestVfSticky(t *testing.T) {
 		methods := []string{"ACK", "BYE", "INVITE", "UPDATE", "INFO", "NOTIFY", "SUBSCRIBE", "PRACK", "REFER", "MESSAGE"}
 		for i := 0; i < nrand; i++ {
 			nd := 1 + rnd.Intn(50)
-			s.open(fmt.Sprintf("rand%d", i), 2+rnd.Intn(5), 0)
+			tmo, sleeps := 0, 0
+			if i%4 == 3 { // every fourth history: a short dialog timeout that passes up to three times while dialogs with a larger Expires live on
+				tmo = 70 + rnd.Intn(60)
+			}
+			longExp := func() int {
+				if tmo > 0 && rnd.Intn(2) == 0 {
+					return []int{3600, 7200, 86400}[rnd.Intn(3)]
+				}
+				return 0
+			}
+			s.open(fmt.Sprintf("rand%d", i), 2+rnd.Intn(5), tmo)
 			ds := make([]*vfDialog, nd)
 			state := make([]int, nd) // 0 new, 1 invited, 2 answered
 			for j := range ds {
@@ -342,11 +372,14 @@ func TestVfSticky(t *testing.T) {
 					s.event(vfStickyOp{Op: "initial"}, d, rnd, 0)
 					state[j] = 1
 				case state[j] == 0:
-					s.event(vfStickyOp{Op: "bsub", B: fmt.Sprintf("b%d", 1+rnd.Intn(len(s.backs)))}, d, rnd, 0)
+					s.event(vfStickyOp{Op: "bsub", B: fmt.Sprintf("b%d", 1+rnd.Intn(len(s.backs)))}, d, rnd, longExp())
 					state[j] = 2
 				case state[j] == 1 && x < 12:
-					s.event(vfStickyOp{Op: "answer"}, d, rnd, 0)
+					s.event(vfStickyOp{Op: "answer"}, d, rnd, longExp())
 					state[j] = 2
+				case x == 18 && tmo > 0 && sleeps < 3 && st > 20:
+					sleeps++
+					s.event(vfStickyOp{Op: "timeout"}, nil, rnd, 0)
 				case x < 3:
 					s.event(vfStickyOp{Op: "unrelated"}, nil, rnd, 0)
 				case x == 19 && st%3 == 0:
@@ -356,7 +389,7 @@ func TestVfSticky(t *testing.T) {
 				case x == 4 && state[j] == 2:
 					s.event(vfStickyOp{Op: "notify-term", M: []string{"", "reason"}[rnd.Intn(2)]}, d, rnd, 0)
 				case x == 5 && state[j] == 2:
-					s.event(vfStickyOp{Op: "answer"}, d, rnd, 0)
+					s.event(vfStickyOp{Op: "answer"}, d, rnd, longExp())
 				default:
 					s.event(vfStickyOp{Op: "indialog", M: methods[rnd.Intn(len(methods))]}, d, rnd, 0)
 				}
